@@ -198,13 +198,18 @@ def apply_op(pool, op, labels, flags):
             flags["nt"] = True
             labels.add("rejected:nan")
     elif kind == "key_unknown":
+        # an unknown key - including names of attributes and methods of the
+        # vector object, which are not keys either
+        bad_key = op[2] if len(op) > 2 else "zz_unknown"
+        bad_val = [0.25] * max(n, 1) if bad_key in ("values", "_values",
+                                                    "_mins") else 1.0
         try:
-            v["zz_unknown"] = 1.0
+            v[bad_key] = bad_val
         except ValueError:
             flags["nt"] = True
             labels.add("rejected:unknown-key")
         else:
-            raise Violation(f"{what}: unknown key accepted")
+            raise Violation(f"{what}: unknown key {bad_key!r} accepted")
     elif kind == "all":
         vec = [float(x) for x in op[2]]
         accepted = m.copy().setall(vec)
@@ -247,7 +252,8 @@ def ops_for(n):
     vals = [-5., -1., 0.25, 1., 7., NAN]
     ops = [["reset", 0], ["clone", 0, "replace"], ["clone", 0, "add"],
            ["dict", 0, "direct", "replace"], ["dict", 0, "json", "replace"],
-           ["key_unknown", 0]]
+           ["key_unknown", 0], ["key_unknown", 0, "values"],
+           ["key_unknown", 0, "_mins"]]
     for i in range(n):
         for v in vals:
             ops.append(["attr", 0, i, v])
@@ -436,9 +442,12 @@ def machine_factory(tier, rec):
                 mode = "replace"
             self.do(["dict", k, how, mode])
 
-        @rule(k=st.integers(0, 7))
-        def unknown_key(self, k):
-            self.do(["key_unknown", k])
+        @rule(k=st.integers(0, 7),
+              name=st.sampled_from(["zz_unknown", "values", "_values",
+                                    "_mins", "_maxs", "_defaults", "reset",
+                                    "names", "_hitbounds", "nval", ""]))
+        def unknown_key(self, k, name):
+            self.do(["key_unknown", k, name])
 
         def teardown(self):
             if rec is not None and self.cfg is not None:
